@@ -103,6 +103,8 @@ func runC12(c *report.Ctx) {
 	checkNoServerTimeouts(c)
 	checkRuntimeReleaseUnconditional(c)
 	checkReplySinkGuards(c)
+	checkTransitionBeforeBody(c)
+	checkOnlyOwnMiddleware(c)
 	c.Clause("4 routes")
 	checkRuntimeRoutes(c)
 }
